@@ -41,7 +41,7 @@ Lemma og_%s : forall n L s %s s1 sends e,
 Proof.
   intros n L s %s s1 sends e I Hw H.
   cbn [wf_op] in Hw; try discriminate Hw; split_ands.
-  unfold obj_step, ok, fail in H.
+  unfold obj_step, obj_step_core, ok, fail in H.
 %s
 %s
 ''' % (name,vs,name,vs,name,vs,name,vs,name,vs,vs,extra,final)
